@@ -158,6 +158,16 @@ CLAIMED["C13"] = dict(
     technique="jaxpr symbolic execution to polynomials (draws as UF of the PRNG key) + z3 (NRA) identity queries; forced-draw replay",
     design="§4 C13", note=DIRECT_NOTE)
 
+CLAIMED["C12"] = dict(
+    text="Bounded symbolic model checking: loss_lml_terminal_values and loss_lml_timeseries are traced on an ARBITRARY "
+         "marginal / backward Markov sequence (symbolic means, factors, kernels, data and a different symbolic noise level "
+         "per output time). log is uninterpreted; the returned polynomial-in-atoms is split into its log-free part and the "
+         "product of the log arguments, and both are shown equal (z3 QF_LRA on linearised obligations) to the log-density of "
+         "the exact joint Gaussian law of the observed coefficient at all output times (assembled from the kernels, then "
+         "conditioned in covariance form), summed or averaged. Observed coefficient 0 and 1, three factorisations.",
+    technique="jaxpr symbolic execution + polynomial hypotheses + z3 QF_LRA (XL certificates); uninterpreted log; float64 replay",
+    design="§4 C12")
+
 NOT_APPLICABLE = {
     "C01": "Global error vs the true (transcendental) ODE solution and observed convergence rates in floating point "
            "cannot be expressed as a bounded real-arithmetic query over the code; its mechanisms are decided under C02, C06, C07, C09.",
